@@ -62,6 +62,9 @@ def run(ctx, b, broken):
     ODD = ["\u0663", "\uff13", "\u00b2", "\u00e9", "\u00a0", "\u2003", "\u0967"]
     cases += ["1\u0663", "\u0663", "\u0663.\u0665", "1e\u0663", "0x1p\uff13", "1.\u0663", "0\u0663", "'\u0663'", "\"\u0663\"", "1\u0663u", "0x\uff11", "0b\uff11", "1.5e+\u0967",
               "\uff11.5", "1\u00a0", "1\u00b2", "0\uff17", "1.\uff10f", "'\\\u0663'", "L'\u0663'", "u8\"\u0663\""]
+    # every printable ASCII character (and a few others) after a backslash, in every kind of character constant and string literal
+    for ch in [chr(c) for c in range(32, 127)] + ["\t", "\u00e9", "\u0663"]:
+        cases += ["'\\" + ch + "'", '"\\' + ch + '"', "L'\\" + ch + "'", 'u8"a\\' + ch + 'b"', "'a\\" + ch + "'"]
     for _ in range(5000 if ctx.tier == "quick" else 100000):
         s, _c = ctx.rng.choice([gen_int, gen_float, gen_charconst, gen_string])(ctx.rng)
         if ctx.rng.random() < 0.5 and s:
